@@ -20,6 +20,17 @@ CHECKS = [
           'hash function); native replay of witnesses with real double_sha256. Outside: n above the bounds, longer '
           'cache operation sequences.',
   'design_ref': 'DESIGN.md section 4, C12'},
+ {'id': 'C13',
+  'text': 'K1/K2: real Tx.serialize -> Deserializer.read_tx_and_hash with every field byte symbolic (z3 bit-vectors '
+          'through bit-exact struct shims): parsed fields, cursor, hashed bytes and re-serialisation proved equal for '
+          'all values, and every proper prefix shown to raise, for the listed count / script-length shapes '
+          '(varint boundaries 252/253/254, 65535/65536, 253 items).  K3: real OnDiskBlock.iter_txs/_chunk_offsets/'
+          'iter_txs_reversed on an in-memory block file with chunk_size a symbolic integer >= 1 (all sizes: the file '
+          'stub forks on size >= remaining): forward order exact, reverse order the exact reverse.',
+  'note': 'Trusted: CPython, z3, symx proxies + struct/memoryview shims (validated by native witness replay on real '
+          'files), double_sha256 as uninterpreted function. Outside: non-canonical varints, other shapes, blocks of '
+          'more than 4 transactions.',
+  'design_ref': 'DESIGN.md section 4, C13'},
 ]
 _TODO = 'check not built yet in this revision (planned, see DESIGN.md section 4); no claim is made'
-NOT_APPLICABLE = [{'property_id': f'C{n:02d}', 'reason': _TODO} for n in range(1, 20) if n not in (12,)]
+NOT_APPLICABLE = [{'property_id': f'C{n:02d}', 'reason': _TODO} for n in range(1, 20) if n not in (12, 13)]
